@@ -363,6 +363,14 @@ Definition parse_case (x : sx) : option (string * mat sx * idx * nat * list (sx 
   | _ => None
   end.
 
+(* a well-formed case whose observation is not a session: the harness process hung or aborted *)
+Definition crash_verdict (x : sx) : sx :=
+  match x with
+  | Lx [Lx [Ax "c03"; xm; qs; Zx _]; Lx [Ax "hang"]] => v_bad "interpreter-hung" (Ax "session")
+  | Lx [Lx [Ax "c03"; xm; qs; Zx _]; Lx [Ax "abort"; _]] => v_bad "interpreter-aborted" (Ax "session")
+  | _ => v_malformed
+  end.
+
 Definition judge_index (x : sx) : sx :=
   match parse_case x with
   | Some (k, m, q, pre, sts) =>
@@ -372,7 +380,7 @@ Definition judge_index (x : sx) : sx :=
         | _, _, _ => v_malformed
         end
       else v_malformed
-  | None => v_malformed
+  | None => crash_verdict x
   end.
 
 Definition run_line (s : string) : string := run_with judge_index s.
